@@ -19,6 +19,7 @@ const (
 	maxPropLen  = 20000 // length-proportional operations are only issued at or below this length
 	burstSize   = 1100
 	sparseDelta = 5000
+	spareCap    = 6 // spare capacity (filled with sentinels) of the Go slices handed to the wrappers
 )
 
 var preludeProg = goja.MustCompile("c07-prelude.js", m.Prelude, false)
@@ -73,10 +74,17 @@ func newEngine(cs *Case) (*engine, *execError) {
 	case "dense", "arraylike":
 		o = gj.Call(func() (goja.Value, error) { return e.r.RunString(cs.recvJS()) })
 	case "goslice", "gosliceptr":
-		s := make([]interface{}, len(cs.Recv.Elems))
+		// the host slice is a sub-slice with spare capacity whose backing array holds sentinels past len():
+		// growing from script must expose empty (null) slots, never resurrect what the backing array held
+		n := len(cs.Recv.Elems)
+		backing := make([]interface{}, n+spareCap)
 		for i, l := range cs.Recv.Elems {
-			s[i] = goVal(l, false)
+			backing[i] = goVal(l, false)
 		}
+		for i := n; i < len(backing); i++ {
+			backing[i] = "STALE" + strconv.Itoa(i-n)
+		}
+		s := backing[:n]
 		o = gj.Call(func() (goja.Value, error) {
 			if cs.Recv.Kind == "gosliceptr" {
 				return nil, e.r.Set("a", &s)
@@ -84,10 +92,15 @@ func newEngine(cs *Case) (*engine, *execError) {
 			return nil, e.r.Set("a", s)
 		})
 	case "reflect":
-		s := make([]int, len(cs.Recv.Elems))
+		n := len(cs.Recv.Elems)
+		backing := make([]int, n+spareCap)
 		for i, l := range cs.Recv.Elems {
-			s[i] = goVal(l, true).(int)
+			backing[i] = goVal(l, true).(int)
 		}
+		for i := n; i < len(backing); i++ {
+			backing[i] = 990000 + i - n // sentinels in the spare capacity
+		}
+		s := backing[:n]
 		o = gj.Call(func() (goja.Value, error) { return nil, e.r.Set("a", &s) })
 	default:
 		return nil, &execError{monitor: "harness-recv", detail: "unknown receiver kind " + cs.Recv.Kind}
